@@ -19,6 +19,8 @@ import RpylibModel.Proofs.Lemmas.C11Theta1
 import RpylibModel.Proofs.Lemmas.C11Margin
 import RpylibModel.Proofs.Lemmas.C11IndepDep
 import RpylibModel.Proofs.Lemmas.C11Convex
+import RpylibModel.Proofs.Lemmas.C11Real
+import Mathlib.Data.Real.Sign
 import Mathlib.Tactic.Linarith
 import Mathlib.Tactic.Ring
 import Mathlib.Tactic.FieldSimp
@@ -253,5 +255,70 @@ theorem cond_dist_inverse {K : Type} [Field K] [LinearOrder K] [IsStrictOrderedR
       rw [e1, hs2 _ (by have := mul_pos h0 hQ; linarith), if_neg hlt, e2, hqq]
       have : 1 + p |e / x| - 1 = p |e / x| := by ring
       rw [this, hrr, mul_assoc, habs, abs_of_neg hxneg]; ring
+
+/-! ## Every θ > 0 over ℝ: the hypotheses `ClaytonGen` are theorems (Real.rpow) -/
+
+/-- `|u|^(-θ)`, `s^(-1/θ)` is a Clayton generator pair for every θ > 0 (convexity of the negative power included) -/
+theorem clayton_real_generator (θ : ℝ) (hθ : 0 < θ) : ClaytonGen (genReal θ) := genReal_clayton θ hθ
+
+/-- **Clayton copula, every θ > 0, every η ∈ [0,1], real arithmetic, d = 2**: non-negative volume of every rectangle of
+    the extended plane that has no corner with two infinite entries -/
+theorem clayton_real_two_increasing (θ : ℝ) (hθ : 0 < θ) (eta : ℝ) (h0 : 0 ≤ eta) (h1 : eta ≤ 1)
+    (a1 b1 a2 b2 : Ext ℝ) (hP : Adm a1 b1 a2 b2) (l1 : Ext.LE a1 b1) (l2 : Ext.LE a2 b2) :
+    0 ≤ volume (claytonOf (genReal θ) 1 eta) [a1, a2] [b1, b2] :=
+  claytonOf_two_increasing (genReal_clayton θ hθ) eta h0 h1 a1 b1 a2 b2 hP l1 l2
+
+/-- every θ > 0: margins are the identity in d = 2 and d = 3, every η, every sign of the argument -/
+theorem clayton_real_margins_identity (θ : ℝ) (hθ : 0 < θ) (eta a : ℝ) :
+    (∀ i, i < 2 → margin (claytonOf (genReal θ) 1 eta) [i] 2 [.fin a] = a) ∧
+    (∀ i, i < 3 → margin (claytonOf (genReal θ) (1 / 2) eta) [i] 3 [.fin a] = a) :=
+  ⟨fun i hi => claytonOf_margin_d2 (genReal_clayton θ hθ) eta a i hi,
+   fun i hi => claytonOf_margin_d3 (genReal_clayton θ hθ) eta a i hi⟩
+
+/-- every θ > 0: grounded, any dimension -/
+theorem clayton_real_grounded (θ : ℝ) (hθ : 0 < θ) (scale eta : ℝ) (us : List (Ext ℝ)) (h : Ext.fin 0 ∈ us) :
+    claytonOf (genReal θ) scale eta us = 0 := claytonOf_grounded (genReal_clayton θ hθ) scale eta us h
+
+/-- what `claytonOf (genReal θ)` is on finite non-zero arguments in d = 2: the coded formula (levycopula.py:68-81) -/
+theorem claytonOf_genReal_formula (θ eta u v : ℝ) (hu : u ≠ 0) (hv : v ≠ 0) :
+    claytonOf (genReal θ) 1 eta [.fin u, .fin v] =
+      (|u| ^ (-θ) + |v| ^ (-θ)) ^ (-(1 / θ)) * (if 0 ≤ u * v then eta else -(1 - eta)) := by
+  rcases lt_or_gt_of_ne hu with hu' | hu' <;> rcases lt_or_gt_of_ne hv with hv' | hv'
+  · have : 0 ≤ u * v := le_of_lt (mul_pos_of_neg_of_neg hu' hv')
+    simp [claytonOf, claytonG, sumG, countNeg, Gen.arg, Gen.argZero, genReal, hu, hv, hu', hv', this]
+  · have : ¬ 0 ≤ u * v := not_le.mpr (mul_neg_of_neg_of_pos hu' hv')
+    simp [claytonOf, claytonG, sumG, countNeg, Gen.arg, Gen.argZero, genReal, hu, hv, hu', not_lt.mpr hv'.le, this]
+  · have : ¬ 0 ≤ u * v := not_le.mpr (mul_neg_of_pos_of_neg hu' hv')
+    simp [claytonOf, claytonG, sumG, countNeg, Gen.arg, Gen.argZero, genReal, hu, hv, hv', not_lt.mpr hu'.le, this]
+  · have : 0 ≤ u * v := le_of_lt (mul_pos hu' hv')
+    simp [claytonOf, claytonG, sumG, countNeg, Gen.arg, Gen.argZero, genReal, hu, hv, not_lt.mpr hu'.le,
+      not_lt.mpr hv'.le, this]
+
+/-- every θ > 0, 0 < η < 1: the coded inverse inverts the coded conditional distribution (real powers) -/
+theorem clayton_real_cond_inverse (θ : ℝ) (hθ : 0 < θ) (eta e x : ℝ) (h0 : 0 < eta) (h1 : eta < 1) (he : e ≠ 0)
+    (hx : x ≠ 0) :
+    invCondDist (fun c => c ^ (-θ / (θ + 1))) (fun s => s ^ (-(1 / θ))) Real.sign |e| eta e
+      (condDist (fun t => t ^ θ) (fun y => y ^ (-1 - 1 / θ)) (fun a b => |a / b|) eta e x) = x := by
+  have hθ1 : 0 < θ + 1 := by linarith
+  apply cond_dist_inverse (fun t => t ^ θ) (fun y => y ^ (-1 - 1 / θ)) (fun c => c ^ (-θ / (θ + 1)))
+    (fun s => s ^ (-(1 / θ))) Real.sign
+  · intro y hy
+    have hy0 : 0 ≤ y := by linarith
+    show (y ^ (-1 - 1 / θ)) ^ (-θ / (θ + 1)) = y
+    rw [← Real.rpow_mul hy0]
+    have : (-1 - 1 / θ) * (-θ / (θ + 1)) = 1 := by field_simp; ring
+    rw [this, Real.rpow_one]
+  · intro y hy
+    exact Real.rpow_pos_of_pos (by linarith) _
+  · intro t ht
+    show (t ^ θ) ^ (-(1 / θ)) = 1 / t
+    rw [← Real.rpow_mul ht.le]
+    have : θ * -(1 / θ) = -1 := by field_simp
+    rw [this, Real.rpow_neg_one, one_div]
+  · intro t ht
+    exact Real.rpow_pos_of_pos ht _
+  · intro v hv; exact Real.sign_of_pos hv
+  · intro v hv; exact Real.sign_of_neg hv
+  all_goals assumption
 
 end Rpylib.Copula
